@@ -115,8 +115,6 @@ Definition w_stale_handle : list op :=
 (* remove then re-create shows the old length *)
 Definition w_recreate : list op :=
   [Spit [1] [65; 66; 67; 68; 69; 70] false; Unlink [1]; O_WCN 1 [1]; FLen 1].
-(* create without write access is accepted *)
-Definition w_open_opts : list op := [Open 1 [1] false false false false true false; Exists [1]].
 (* the root directory can be removed *)
 Definition w_root_op : list op := [Rmdir []; Exists []].
 
@@ -153,11 +151,6 @@ Proof. vm_compute. auto. Qed.
 Lemma recreate_refuted_lemma :
   in_class KRecreate w_recreate = true /\
   spec_out w_recreate 3 = ONum 0 /\ impl_out w_recreate 3 = ONum 6.
-Proof. vm_compute. auto. Qed.
-
-Lemma open_opts_refuted_lemma :
-  in_class KOpenOptsInvalid w_open_opts = true /\
-  spec_out w_open_opts 0 = OErr EINVAL /\ impl_out w_open_opts 0 = OOk.
 Proof. vm_compute. auto. Qed.
 
 Lemma root_op_refuted_lemma :
